@@ -139,7 +139,7 @@ func init() {
 			"internal markers are Add-ed before they are sent and Done exactly once where consumed (C01.marker-*); every partition set of a produce response is routed to exactly one disposition and the two retriable case lists agree (C01.route); " +
 			"retryMessage re-queues or fails, never both or neither, with the budget test guarding the increment (C01.retry); shutdown waits before closing (C01.shutdown); the sync producer stores the expectation before submitting and answers each event once on its own channel (C01.sync); after a transport failure both the failed request and the pending buffer are swept before the buffer is replaced (C01.error-sweep); a buffered message is eventually flushed: the flush timer is armed after every add that needs it and reset with every buffer replacement, the output is enabled exactly when a flush is due (C16.flush, shared — a message that is never flushed never gets its outcome). " +
 			"NOT covered: liveness of the retry loop across goroutines, value-dependent behaviour of markers whose budget is exhausted, the idempotent retryBatch hand-off to another broker worker.",
-		Rules: []func(*Ctx){c01Emit, c01Partial, c01Markers, c01Route, c01ErrorSweep, c01Retry, c01Shutdown, c01Sync, c01Loops, c16Flush},
+		Rules: []func(*Ctx){c01Emit, c01Partial, c01Markers, c01Route, c01ErrorSweep, c01Retry, c01Shutdown, c01BrokerShutdown, c01Sync, c01Loops, c16Flush},
 	})
 }
 
@@ -753,6 +753,31 @@ func c01Retry(c *Ctx) {
 }
 
 // C01.shutdown
+// c01BrokerShutdown: a broker worker that stops hands every message it still buffers to the network goroutine
+// (or has its responses handled) first: close(bp.output) is reached only over an edge on which the buffer is empty.
+func c01BrokerShutdown(c *Ctx) {
+	p := c.P
+	rule := "C01.shutdown"
+	fn := c.NeedFn(rule, "brokerProducer.shutdown")
+	if fn == nil {
+		return
+	}
+	reg := WholeFn(fn)
+	cl := reg.Find(CloseOf(FieldLoad("brokerProducer.output")))
+	if len(cl) == 0 {
+		c.Unresolved(rule, "close(bp.output) in brokerProducer.shutdown")
+		return
+	}
+	empty := Truth{p.ResultOf(0, "produceSet.empty"), true}
+	for _, s := range cl {
+		g, path := reg.Guarded(s, empty)
+		c.Check(g, rule, fn, "drain-until-empty", s.Instr(), "the output channel is closed only once the buffer is empty",
+			"brokerProducer.shutdown can close its output while the buffer still holds messages (for instance a partly filled batch that is not \"ready to flush\"): they are never sent and never reported, inFlight never reaches zero and Close blocks forever", path)
+		it, pth := reg.MustPrecede(IsItem(s), CloseOf(FieldLoad("brokerProducer.stopchan")))
+		c.Check(it.IsZero(), rule, fn, "output-closed-before-stop", s.Instr(), "stopchan is closed after the output channel", "the worker signals that it has stopped before it closed its output", pth)
+	}
+}
+
 func c01Shutdown(c *Ctx) {
 	p := c.P
 	c.Doc("C01.shutdown", "asyncProducer.shutdown: inFlight.Wait precedes every close of input/retries/errors/successes; all four are closed on every path")
